@@ -2,7 +2,7 @@
 from collections import Counter
 
 from .. import hooks
-from ..gen import big_n, canon, mk_event, rand_grid, rand_intervals, rand_nonoverlapping
+from ..gen import big_n, canon, exact, mk_event, rand_grid, rand_intervals, rand_nonoverlapping
 from ..model import allen, closed_union, measure
 from . import _tx
 from ._tx import exc_viol, is_event_list, iv, snap, tmod, unmodified
@@ -46,16 +46,16 @@ def post_intersect(old, oldkw, result, exc, after, afterkw):
             fs, fe = iv(f)
             s, t = max(es, fs), min(ee, fe)
             if t > s:
-                want[(s, t, canon(e.data), e.id)] += 1
+                want[(s, t, exact(e.data), e.id)] += 1
     got = Counter()
     for r in result:
         rs, re_ = iv(r)
         if re_ > rs:
-            got[(rs, re_, canon(r.data), r.id)] += 1
+            got[(rs, re_, exact(r.data), r.id)] += 1
         elif re_ < rs:
             v.append(("intersect-negative-piece", f"{(rs, re_)}"))
         else:
-            ok = any(iv(e)[0] <= rs <= iv(e)[1] and canon(e.data) == canon(r.data) and e.id == r.id for e in events) \
+            ok = any(iv(e)[0] <= rs <= iv(e)[1] and exact(e.data) == exact(r.data) and e.id == r.id for e in events) \
                 and any(iv(f)[0] <= rs <= iv(f)[1] for f in filt)
             if not ok:
                 v.append(("intersect-stray-zero-piece", f"{rs} not inside an event and a filter event"))
@@ -127,7 +127,9 @@ def teardown(ctx):
         mon.uninstall()
 
 
-_DATA = [{}, {"label": "a"}, {"label": "b"}, {"app": "x", "n": [1, {"k": None}]}]
+# data as transforms may be handed it in memory: tuples are not lists there (a {"$tuple": …} marker becomes a tuple)
+_DATA = [{}, {"label": "a"}, {"label": "b"}, {"app": "x", "n": [1, {"k": None}]}, {"label": "a", "cursor": {"$tuple": [12, 40]}},
+         {"label": "a", "cursor": [12, 40]}, {"size": {"wh": {"$tuple": [80, 24]}}, "hist": [{"$tuple": ["a", 1]}]}]
 
 
 def _specs(rng, ivs, base, unit, idbase):
